@@ -49,14 +49,14 @@ def template_sizes(names, seed):
     return out
 
 
-def generate(run, names, seed, num, depth, max_iters=(1, 2, 3), tols=('0', '1e-4', '1e-1'), queries=None, workers=4, edits=False):
+def generate(run, names, seed, num, depth, max_iters=(1, 2, 3), tols=('0', '1e-4', '1e-1'), queries=None, workers=4, edits=False, faults=False):
     """Behaviours of MC_Scenario: list of (template name, [arg records])."""
     from .build import tla
     sizes = template_sizes(names, seed)
     qdef = ''
-    mc = ('---- MODULE MC_Scn ----\nEXTENDS MC_Scenario\nTemplatesDef == %s\nMaxIterDef == %s\nTolDef == %s\nEditsDef == %s\n====\n'
-          % (tla(set()) if not sizes else '{' + ', '.join(tla(s) for s in sizes) + '}', tla(set(max_iters)), tla(set(tols)), 'TRUE' if edits else 'FALSE'))
-    cfg = ('SPECIFICATION SSpec\nCONSTANTS\n Templates <- TemplatesDef\n MaxIterSet <- MaxIterDef\n TolSet <- TolDef\n Edits <- EditsDef\n'
+    mc = ('---- MODULE MC_Scn ----\nEXTENDS MC_Scenario\nTemplatesDef == %s\nMaxIterDef == %s\nTolDef == %s\nEditsDef == %s\nFaultsDef == %s\n====\n'
+          % (tla(set()) if not sizes else '{' + ', '.join(tla(s) for s in sizes) + '}', tla(set(max_iters)), tla(set(tols)), 'TRUE' if edits else 'FALSE', 'TRUE' if faults else 'FALSE'))
+    cfg = ('SPECIFICATION SSpec\nCONSTANTS\n Templates <- TemplatesDef\n MaxIterSet <- MaxIterDef\n TolSet <- TolDef\n Edits <- EditsDef\n Faults <- FaultsDef\n'
            'PROPERTY FixedFrozenS\nPROPERTY QueriesPure\nPROPERTY StructureFrozen\nPROPERTY FlagsRule\nPROPERTY PosesRule\n')
     per = max(1, (num + workers - 1) // workers)
     res = tlc.run('MC_Scn', cfg, mc_text=mc, simulate=per, depth=depth, seed=seed + 1, dump=True, workers=workers, timeout=1200)
@@ -131,6 +131,8 @@ def _step(s, a, split_fn, sid, twin_every, counters):
         s.set_fixed(a['idx'], a['flag'])
     elif a['op'] == 'Reload':
         s.reload()
+    elif a['op'] == 'OptAbort':
+        s.optimize_abort(a['maxIter'], a['fixFirst'], a['idx'])
     elif a['op'] == 'SetPose':
         s.set_pose(a['idx'])
     elif a['op'] == 'SetMeas':
